@@ -219,7 +219,8 @@ def nontrivial(case, obs):
 
 def corpus_chunks():
     yield [("{x: [{a: 1}]}", ["x.a", "x.*.a"]), ("{x: [{a: 1}, [2, 3]]}", ["**"]),
-           ("s: !!set\n  ? a\n  ? b\n", ["s.*", "**", "s.a"])]
+           ("s: !!set\n  ? a\n  ? b\n", ["s.*", "**", "s.a"]),
+           ("[ab, {a: -1}, 1]", ["[-9:1][.=ab]", "[0:2][.=ab]", "[1:3][.=1]"])]
 
 
 def chunks(tier, seed):
